@@ -1,0 +1,40 @@
+//go:build verif
+
+package fsnotify
+
+// Verification hooks; compiled only with -tags verif. Read-only accessors and
+// exported aliases for unexported identifiers, nothing else.
+
+const (
+	VerifUnportableOpen       = xUnportableOpen
+	VerifUnportableRead       = xUnportableRead
+	VerifUnportableCloseWrite = xUnportableCloseWrite
+	VerifUnportableCloseRead  = xUnportableCloseRead
+)
+
+// VerifSetRecurse switches the (unexported, test-only) recursive watch support.
+func VerifSetRecurse(on bool) { enableRecurse = on }
+
+// VerifAddWith calls AddWith with the unexported options.
+func VerifAddWith(w *Watcher, path string, ops Op, useOps, noFollow, sendCreate bool) error {
+	var opts []addOpt
+	if useOps {
+		opts = append(opts, withOps(ops))
+	}
+	if noFollow {
+		opts = append(opts, withNoFollow())
+	}
+	if sendCreate {
+		opts = append(opts, withCreate())
+	}
+	return w.AddWith(path, opts...)
+}
+
+// VerifDefaultBufferSize reports the platform default Events capacity.
+func VerifDefaultBufferSize() int { return defaultBufferSize }
+
+// VerifRenamedFrom exposes the unexported Event.renamedFrom.
+func VerifRenamedFrom(e Event) string { return e.renamedFrom }
+
+// VerifSupports exposes the unexported Watcher.xSupports.
+func VerifSupports(w *Watcher, op Op) bool { return w.xSupports(op) }
